@@ -123,6 +123,53 @@ fn bracket_inputs() -> Vec<(String, String)> {
     v
 }
 
+/// two declared shapes meet: every ordered pair of small types (blobs over the field subsets of {x, y, z}, one with a
+/// field of another type; enums over the variant subsets of {P, Q int, R}; tuples, functions, lists, scalars), a value of
+/// the one used where the other is expected, in every unification position (argument, both directions of assignment,
+/// comparison, list element, branch values, annotated definition, declared result, field of a third blob)
+fn type_pair_inputs() -> Vec<(String, String)> {
+    // (declaration with {N} for the type name, annotation, value)
+    let mut items: Vec<(String, String, String)> = Vec::new();
+    let fields = [("x", "int", "1"), ("y", "int", "2"), ("z", "int", "3")];
+    for mask in 1u32..8 {
+        let fs: Vec<_> = fields.iter().enumerate().filter(|(i, _)| (mask >> i) & 1 == 1).map(|(_, f)| *f).collect();
+        let decl = format!("{{N}} :: blob {{ {} }}\n", fs.iter().map(|(n, t, _)| format!("{}: {}", n, t)).collect::<Vec<_>>().join(", "));
+        let value = format!("{{N}} {{ {} }}", fs.iter().map(|(n, _, v)| format!("{}: {}", n, v)).collect::<Vec<_>>().join(", "));
+        items.push((decl, "{N}".into(), value));
+    }
+    items.push(("{N} :: blob { x: str }\n".into(), "{N}".into(), "{N} { x: \"s\" }".into()));
+    items.push(("{N} :: blob(*T) { x: *T }\n".into(), "{N}(int)".into(), "{N} { x: 1 }".into()));
+    let variants = [("P", "P", "P"), ("Q", "Q int", "Q 1"), ("R", "R", "R")];
+    for mask in 1u32..8 {
+        let vs: Vec<_> = variants.iter().enumerate().filter(|(i, _)| (mask >> i) & 1 == 1).map(|(_, v)| *v).collect();
+        let decl = format!("{{N}} :: enum\n{}end\n", vs.iter().map(|(_, d, _)| format!("    {},\n", d)).collect::<String>());
+        items.push((decl, "{N}".into(), format!("{{N}}.{}", vs[0].2)));
+    }
+    for (ann, value) in [("(int,)", "(1,)"), ("(int, int)", "(1, 2)"), ("(int, str)", "(1, \"a\")"), ("fn -> int", "fn -> 1 end"), ("fn int -> int", "fn q: int -> q end"),
+        ("fn int, int -> int", "fn q: int, r: int -> q end"), ("[int]", "[1]"), ("[str]", "[\"a\"]"), ("int", "1"), ("str", "\"a\"")] {
+        items.push((String::new(), ann.into(), value.into()));
+    }
+    let positions: &[(&str, &str)] = &[
+        ("argument", "    take(b)\n"), ("assign", "    a = b\n"), ("assign-back", "    b = a\n"), ("compare", "    print(a == b)\n"), ("list", "    l := [a, b]\n"),
+        ("branches", "    c := if true do a else b end\n"), ("annotated", "    q: {A} = b\n"), ("result", "    give :: fn -> {A}\n        ret b\n    end\n"),
+        ("field", "    h := Holder { v: b }\n"), ("field-assign", "    h := Holder { v: a }\n    h.v = b\n"),
+    ];
+    let mut v = Vec::new();
+    for (i, (da, aa, va)) in items.iter().enumerate() {
+        for (j, (db, ab, vb)) in items.iter().enumerate() {
+            let (na, nb) = ("Ta", "Tb");
+            let aa = aa.replace("{N}", na);
+            let hdr = format!("print: fn *X -> void : external\n{}{}Holder :: blob {{ v: {} }}\ntake :: fn p: {} do\nend\n", da.replace("{N}", na), db.replace("{N}", nb), aa, aa);
+            for (pn, text) in positions {
+                let body = format!("    a := {}\n    b := {}\n{}", va.replace("{N}", na), vb.replace("{N}", nb), text.replace("{A}", &aa));
+                let _ = ab;
+                v.push((format!("type-pair {}x{} at {}", i, j, pn), format!("{}start :: fn do\n{}end\n", hdr, body)));
+            }
+        }
+    }
+    v
+}
+
 fn nest_inputs() -> Vec<(String, String)> {
     // block-forming constructs nested on one line and across lines
     let forms: &[(&str, &str, &str)] = &[
@@ -376,6 +423,7 @@ impl Space {
         parts.push(("ladders".to_string(), ladders.len() as u64));
         let mut nests = nest_inputs();
         nests.extend(bracket_inputs());
+        nests.extend(type_pair_inputs());
         parts.push(("nests".to_string(), nests.len() as u64));
         let stmt_len = if thorough { 4 } else { 2 };
         let nm = STMT_MENU.len() as u64;
